@@ -117,6 +117,155 @@ pub enum E {
     Paren(Box<E>),
 }
 
+
+/// Static upper estimate of (result size, evaluation work) of a generated tree, in "elements" - used to keep
+/// generated programs inside a work budget. The language has no loops but `reduce(acc, x, acc + acc, ..)` doubles
+/// per element, and a reduce whose receiver is the accumulator of an enclosing reduce grows as a tower
+/// (2, 8, 512, 2^513 elements): such a program is legitimately non-returning and says nothing about any property.
+/// Free variables are assumed to hold at most `FREE` elements.
+pub fn cost(e: &E) -> (f64, f64) {
+    let mut env: Vec<(String, f64)> = Vec::new();
+    cost_in(e, &mut env)
+}
+
+const FREE: f64 = 12.0;
+const CAP: f64 = 1e30;
+
+fn cost_in(e: &E, env: &mut Vec<(String, f64)>) -> (f64, f64) {
+    fn sum(items: &[&E], env: &mut Vec<(String, f64)>) -> (f64, f64) {
+        let mut s = 0.0;
+        let mut w = 0.0;
+        for i in items {
+            let (a, b) = cost_in(i, env);
+            s += a;
+            w += b;
+        }
+        (s.min(CAP), w.min(CAP))
+    }
+    match e {
+        E::Lit(v) => {
+            let n = match v {
+                CelValue::List(l) => l.len() as f64 + 1.0,
+                CelValue::Map(m) => m.len() as f64 + 1.0,
+                CelValue::String(s) => s.len() as f64 + 1.0,
+                CelValue::Bytes(b) => b.len() as f64 + 1.0,
+                _ => 1.0,
+            };
+            (n, 1.0)
+        }
+        E::Raw(t) => (t.len() as f64 + 1.0, 1.0),
+        E::Var(n) => (env.iter().rev().find(|(k, _)| k == n).map(|(_, s)| *s).unwrap_or(FREE), 1.0),
+        E::Un(_, _, a) | E::Paren(a) => cost_in(a, env),
+        E::Field(a, _) => cost_in(a, env),
+        E::Bin(_, a, b) | E::Index(a, b) => {
+            let (s, w) = sum(&[&**a, &**b], env);
+            (s, w + s)
+        }
+        E::Tern(c, a, b) => {
+            let (_, wc) = cost_in(c, env);
+            let (sa, wa) = cost_in(a, env);
+            let (sb, wb) = cost_in(b, env);
+            (sa.max(sb), (wc + wa + wb).min(CAP))
+        }
+        E::List(items) => {
+            let v: Vec<&E> = items.iter().collect();
+            let (s, w) = sum(&v, env);
+            (s + 1.0, w + s)
+        }
+        E::Map(items) => {
+            let v: Vec<&E> = items.iter().flat_map(|(k, v)| [k, v]).collect();
+            let (s, w) = sum(&v, env);
+            (s + 1.0, w + s)
+        }
+        E::Call(_, args) => {
+            let v: Vec<&E> = args.iter().collect();
+            let (s, w) = sum(&v, env);
+            (s + 8.0, w + s)
+        }
+        E::Match(s, cases) => {
+            let (_, mut w) = cost_in(s, env);
+            let mut size: f64 = 1.0;
+            for (p, b) in cases {
+                if let Pat::Cmp(_, pe) = p {
+                    w += cost_in(pe, env).1;
+                }
+                let (sb, wb) = cost_in(b, env);
+                size = size.max(sb);
+                w += wb;
+            }
+            (size, w.min(CAP))
+        }
+        E::FStr(segs) => {
+            let mut s = 1.0;
+            let mut w = 1.0;
+            for g in segs {
+                match g {
+                    Seg::Lit(t) => s += t.len() as f64,
+                    Seg::Expr(x) => {
+                        let (a, b) = cost_in(x, env);
+                        s += a + 24.0;
+                        w += b + a;
+                    }
+                }
+            }
+            (s.min(CAP), w.min(CAP))
+        }
+        E::Method(recv, name, args) => {
+            let is_macro = MACRO_NAMES.contains(&name.as_str()) && args.len() >= 2 && matches!(args[0], E::Var(_));
+            let (n, wr) = cost_in(recv, env);
+            if !is_macro {
+                let v: Vec<&E> = args.iter().collect();
+                let (s, w) = sum(&v, env);
+                // replace / matchReplace / join can multiply receiver and argument sizes
+                let size = if name.contains("eplace") || name == "join" { (n * (s + 1.0)).min(CAP) } else { n + s + 8.0 };
+                return (size, (wr + w + size).min(CAP));
+            }
+            let var_of = |e: &E| if let E::Var(v) = e { v.clone() } else { String::new() };
+            if name == "reduce" && args.len() == 4 {
+                let (acc, x) = (var_of(&args[0]), var_of(&args[1]));
+                let (mut s, mut w) = cost_in(&args[3], env);
+                w += wr;
+                let iters = n.min(64.0) as usize;
+                for _ in 0..iters {
+                    env.push((acc.clone(), s));
+                    env.push((x.clone(), n));
+                    let (s2, w2) = cost_in(&args[2], env);
+                    env.pop();
+                    env.pop();
+                    s = s2;
+                    w = (w + w2).min(CAP);
+                    if s >= CAP {
+                        break;
+                    }
+                }
+                if n > 64.0 {
+                    // more elements than simulated: scale the work, keep the last size (growth beyond that is caught by the cap)
+                    w = (w * (n / 64.0)).min(CAP);
+                }
+                return (s.min(CAP), w);
+            }
+            let x = var_of(&args[0]);
+            env.push((x, n));
+            let mut body_s = 1.0;
+            let mut body_w = 0.0;
+            for a in &args[1..] {
+                let (s, w) = cost_in(a, env);
+                body_s = s;
+                body_w += w;
+            }
+            env.pop();
+            let size = if name == "map" { (n * body_s).min(CAP) } else if name == "filter" { n } else { 1.0 };
+            (size, (wr + n * body_w + size).min(CAP))
+        }
+    }
+}
+
+/// true when the tree is outside the generators' work budget
+pub fn too_heavy(e: &E) -> bool {
+    let (s, w) = cost(e);
+    s > 20_000.0 || w > 400_000.0
+}
+
 pub fn var(s: &str) -> E {
     E::Var(s.to_string())
 }
@@ -155,6 +304,52 @@ impl E {
         let mut n = 1;
         self.for_children(&mut |c| n += c.size());
         n
+    }
+
+    /// pre-order visit of every node
+    pub fn visit(&self, f: &mut dyn FnMut(&E)) {
+        f(self);
+        self.for_children(&mut |c| c.visit(f));
+    }
+
+    /// rebuild the tree bottom-up; `f` may replace a (rebuilt) node
+    pub fn map_tree(&self, f: &dyn Fn(&E) -> Option<E>) -> E {
+        let m = |x: &E| Box::new(x.map_tree(f));
+        let rebuilt = match self {
+            E::Lit(_) | E::Raw(_) | E::Var(_) => self.clone(),
+            E::Un(c, n, a) => E::Un(*c, *n, m(a)),
+            E::Paren(a) => E::Paren(m(a)),
+            E::Field(a, k) => E::Field(m(a), k.clone()),
+            E::Bin(op, a, b) => E::Bin(*op, m(a), m(b)),
+            E::Index(a, b) => E::Index(m(a), m(b)),
+            E::Tern(a, b, c) => E::Tern(m(a), m(b), m(c)),
+            E::List(v) => E::List(v.iter().map(|x| x.map_tree(f)).collect()),
+            E::Call(n, v) => E::Call(n.clone(), v.iter().map(|x| x.map_tree(f)).collect()),
+            E::Map(v) => E::Map(v.iter().map(|(k, x)| (k.map_tree(f), x.map_tree(f))).collect()),
+            E::Method(r, n, v) => E::Method(m(r), n.clone(), v.iter().map(|x| x.map_tree(f)).collect()),
+            E::Match(s, cases) => E::Match(
+                m(s),
+                cases
+                    .iter()
+                    .map(|(p, e)| {
+                        let p2 = match p {
+                            Pat::Cmp(o, pe) => Pat::Cmp(o.clone(), pe.map_tree(f)),
+                            other => other.clone(),
+                        };
+                        (p2, e.map_tree(f))
+                    })
+                    .collect(),
+            ),
+            E::FStr(segs) => E::FStr(
+                segs.iter()
+                    .map(|s| match s {
+                        Seg::Expr(e) => Seg::Expr(e.map_tree(f)),
+                        Seg::Lit(t) => Seg::Lit(t.clone()),
+                    })
+                    .collect(),
+            ),
+        };
+        f(&rebuilt).unwrap_or(rebuilt)
     }
 
     pub fn for_children(&self, f: &mut dyn FnMut(&E)) {
@@ -1160,7 +1355,8 @@ impl<'a> Gen<'a> {
                 self.scope.pop();
                 self.scope.pop();
                 let seed = self.expr(ty, d);
-                return E::Method(Box::new(l), "reduce".into(), vec![E::Var(acc), E::Var(x), step, seed]);
+                let node = E::Method(Box::new(l), "reduce".into(), vec![E::Var(acc), E::Var(x), step, seed]);
+                return if too_heavy(&node) { self.leaf(ty) } else { node };
             }
             7 => {
                 let inner = self.expr(ty, d);
@@ -1273,7 +1469,8 @@ impl<'a> Gen<'a> {
                 let body = self.cond(d1);
                 self.scope.pop();
                 let m = *self.rng.pick(&["all", "exists", "exists_one"]);
-                E::Method(Box::new(l), m.into(), vec![E::Var(x), body])
+                let node = E::Method(Box::new(l), m.into(), vec![E::Var(x), body]);
+                if too_heavy(&node) { self.leaf(&Ty::Bool) } else { node }
             }
             12 if self.cfg.allow_macros => {
                 // has(path)
@@ -1471,7 +1668,8 @@ impl<'a> Gen<'a> {
                     args.push(p);
                 }
                 args.push(body);
-                E::Method(Box::new(l), "map".into(), args)
+                let node = E::Method(Box::new(l), "map".into(), args);
+                if too_heavy(&node) { self.leaf(&Ty::List(Box::new(t.clone()))) } else { node }
             }
             7 if self.cfg.allow_macros => {
                 let l = self.expr(&Ty::List(Box::new(t.clone())), d);
@@ -1479,7 +1677,8 @@ impl<'a> Gen<'a> {
                 self.scope.push(VarDecl { name: x.clone(), ty: t.clone() });
                 let body = self.cond(d);
                 self.scope.pop();
-                E::Method(Box::new(l), "filter".into(), vec![E::Var(x), body])
+                let node = E::Method(Box::new(l), "filter".into(), vec![E::Var(x), body]);
+                if too_heavy(&node) { self.leaf(&Ty::List(Box::new(t.clone()))) } else { node }
             }
             8 if self.cfg.allow_calls && matches!(t, Ty::Int | Ty::Str | Ty::Dbl | Ty::UInt) => {
                 method(self.expr(&Ty::List(Box::new(t.clone())), d), "sort", vec![])
